@@ -32,7 +32,8 @@ RULE = ("single-command cases: 0-6 parameters mixing value types, every listed s
         "parameter cases x {CLI -c file, CLI with tauri.conf.json discovered in ./, ./src-tauri/, ../, library from_tauri_config, build-script entry "
         "point with tauri.conf.json, with typegen.json}, both modes. Run histories: 2-4 runs into one output directory (unforced / --force / \"force\": true, "
         "returning to an earlier state; states differ in parameter case, a renamed parameter, channels, an injected type; CLI -c, CLI with discovered "
-        "tauri.conf.json, build-script with tauri.conf.json / typegen.json), judged after every run; the same on one long-lived generator object (and analyzer) through generate_models. Parameter bindings: plain, "
+        "tauri.conf.json, build-script with tauri.conf.json / typegen.json), judged after every run; the same on one long-lived generator object (and analyzer) through generate_models. Pair-of-commands edits between unforced runs: a channel / value / Option parameter moves from one command to another (same name and type, the sequence of all channels unchanged), "
+        "two commands exchange their channels or values or swap their whole parameter lists, a channel moves to a helper; the two commands adjacent, in either order, around a third command, or in two files; CLI and build-script routes. Parameter bindings: plain, "
         "r#, mut, ref, ref mut, wildcard, struct and tuple-struct patterns at every position relative to value / channel / injected parameters. Source layout: the same items on one line, a whole file on one line, "
         "attribute and fn apart (blank lines, comments), CRLF, tabs, signatures split over lines")
 TRUSTED = ["Spec/C04Obs.v: token-level reading of types.ts/commands.ts (Params declaration, z.object keys, the invoke argument) - a model of TypeScript, not proved",
@@ -935,6 +936,167 @@ def history_cases(rng, thorough):
     return hists
 
 
+# ---- histories whose edit touches TWO commands at once (a parameter / channel changes its owner) ----
+PAIR_EDIT_KINDS = ["move-channel", "move-channel-one-of-two", "move-channel-next-to-another", "exchange-channels", "move-value",
+                   "move-option", "swap-parameter-lists", "move-channel-to-helper", "exchange-values"]
+PAIR_PLACEMENTS = ["one-file-a-b", "one-file-b-a", "two-files-a-first", "two-files-b-first", "one-file-a-c-b", "one-file-c-b-a"]
+
+
+def _mkfn(name, ps, command=True, attr="tauri::command"):
+    return {"name": name, "command": command, "macro": None, "attr": attr,
+            "params": [{"name": n, "ty": t[0], "abs": t[1]} for n, t in ps]}
+
+
+def pair_edit_pair(kind, placement, default_case=None):
+    """(X, Y): two project states that differ ONLY in which of the two functions a, b owns a parameter (or in an exchange
+    between them); every other function, the file set and the settings stay as they are. For the channel moves the sequence
+    of (name, message type) over all commands in file order is the same in X and Y."""
+    S, I, B, O = VALUE_TYPES[0], VALUE_TYPES[1], VALUE_TYPES[3], OPTION_TYPES[0]
+    C, C2, C3 = CHANNEL_TYPES[2], CHANNEL_TYPES[3], CHANNEL_TYPES[1]
+    a0, b0 = [("job_id", S)], [("job_id", S)]
+    b_cmd = True
+    if kind == "move-channel":
+        ax, bx, ay, by = a0 + [("on_progress", C)], b0, a0, b0 + [("on_progress", C)]
+    elif kind == "move-channel-one-of-two":
+        ax, bx = a0 + [("on_progress", C), ("on_done", C2)], b0
+        ay, by = a0 + [("on_progress", C)], b0 + [("on_done", C2)]
+    elif kind == "move-channel-next-to-another":
+        ax, bx = [("on_progress", C)] + a0, [("on_done", C2)] + b0 + [("limit", O)]
+        ay, by = a0, [("on_progress", C), ("on_done", C2)] + b0 + [("limit", O)]
+    elif kind == "exchange-channels":
+        ax, bx = a0 + [("on_progress", C)], [("on_chunk", C3)] + b0
+        ay, by = a0 + [("on_chunk", C3)], [("on_progress", C)] + b0
+    elif kind == "move-value":
+        ax, bx, ay, by = a0 + [("dry_run", B)], b0, a0, b0 + [("dry_run", B)]
+    elif kind == "move-option":
+        ax, bx = [("retry_count", O)] + a0 + [("app", INJECTED_TYPES[1])], b0 + [("on_progress", C)]
+        ay, by = a0 + [("app", INJECTED_TYPES[1])], [("retry_count", O)] + b0 + [("on_progress", C)]
+    elif kind == "swap-parameter-lists":
+        ax, bx = [("file_path", S), ("on_chunk", C2), ("limit", O)], [("user_id", I), ("state", INJECTED_TYPES[4])]
+        ay, by = bx, ax
+    elif kind == "move-channel-to-helper":
+        b_cmd = False
+        ax, bx, ay, by = a0 + [("on_progress", C)], b0, a0, b0 + [("on_progress", C)]
+    elif kind == "exchange-values":
+        ax, bx = a0 + [("max_len", I)], b0 + [("user_name", S)]
+        ay, by = a0 + [("user_name", S)], b0 + [("max_len", I)]
+    else:
+        raise KeyError(kind)
+    cfn = _mkfn("cancel_all", [("reason", O), ("on_cancelled", CHANNEL_TYPES[0])], attr="command")
+
+    def state(pa, pb):
+        fa, fb = _mkfn("start_job", pa), _mkfn("watch_job", pb, command=b_cmd)
+        if placement == "one-file-a-b":
+            files = [{"path": "lib.rs", "fns": [fa, fb]}]
+        elif placement == "one-file-b-a":
+            files = [{"path": "lib.rs", "fns": [fb, fa]}]
+        elif placement == "two-files-a-first":
+            files = [{"path": "a_cmds.rs", "fns": [fa]}, {"path": "lib.rs", "fns": [fb, cfn]}]
+        elif placement == "two-files-b-first":
+            files = [{"path": "a_cmds.rs", "fns": [fb]}, {"path": "sub/z_more.rs", "fns": [cfn, fa]}]
+        elif placement == "one-file-a-c-b":
+            files = [{"path": "lib.rs", "fns": [fa, cfn, fb]}]
+        elif placement == "one-file-c-b-a":
+            files = [{"path": "lib.rs", "fns": [cfn, fb, fa]}]
+        else:
+            raise KeyError(placement)
+        return json.loads(json.dumps({"default_case": default_case, "files": files}))
+    return state(ax, bx), state(ay, by)
+
+
+def keyed(p):
+    """a parameter that gets a key (value, Option or channel) and is bound by a plain identifier"""
+    return p.get("pat", "ident") == "ident" and not any(p["ty"] == t[0] for t in INJECTED_TYPES + KF_TYPES[0])
+
+
+def random_pair_edit(rng):
+    """A random project with at least two commands and ONE edit between two of its functions: a keyed parameter moves from one
+    to the other, the two exchange their channels, or they swap their whole parameter lists. None if the draw does not fit."""
+    x = project_case(rng)
+    fns = [f for fl in x["files"] for f in fl["fns"]]
+    cmds = [i for i, f in enumerate(fns) if f["command"]]
+    if len(cmds) < 2:
+        return None
+    y = json.loads(json.dumps(x))
+    yf = [f for fl in y["files"] for f in fl["fns"]]
+    i, j = rng.sample(cmds, 2)
+    if rng.random() < 0.25:
+        j = rng.choice([k for k in range(len(fns)) if k != i])          # the other one may be a helper
+    op = rng.choice(["move", "move", "move-channel", "move-channel", "exchange-channels", "swap-lists"])
+    a, b = yf[i], yf[j]
+    if op == "swap-lists":
+        a["params"], b["params"] = b["params"], a["params"]
+    elif op == "exchange-channels":
+        def is_ch(p):
+            return any(p["ty"] == t[0] for t in CHANNEL_TYPES)
+        ca, cb = [p for p in a["params"] if is_ch(p)], [p for p in b["params"] if is_ch(p)]
+        a["params"] = [p for p in a["params"] if not is_ch(p)] + cb
+        b["params"] = [p for p in b["params"] if not is_ch(p)] + ca
+    else:
+        cand = [p for p in a["params"] if keyed(p) and (op == "move" or any(p["ty"] == t[0] for t in CHANNEL_TYPES))]
+        if not cand:
+            return None
+        p = rng.choice(cand)
+        a["params"].remove(p)
+        b["params"].insert(rng.randint(0, len(b["params"])), p)
+    for f in (a, b):
+        names = [p["name"] for p in f["params"] if p.get("pat", "ident") != "wild"]
+        if len(set(names)) != len(names):
+            return None
+    if json.dumps(x) == json.dumps(y):
+        return None
+    return x, y, op
+
+
+PAIR_SHAPES = [[("X", "n"), ("Y", "n")], [("X", "n"), ("Y", "n"), ("X", "n")], [("Y", "n"), ("X", "n")],
+               [("X", "f"), ("Y", "n"), ("Y", "n")], [("Y", "n"), ("X", "n"), ("Y", "n")]]
+
+
+def pair_edit_cases(rng, thorough):
+    """every kind of two-command edit x every placement of the two commands x every history route (unforced runs, so that
+    whatever decides 'up to date' has to notice the edit); the same on one long-lived generator; random projects with one
+    such edit. Returns (histories, tally)."""
+    hists, tally = [], {}
+
+    def build(x, y, shape, route):
+        steps = []
+        for st, f in shape:
+            force = None if f == "n" else ("config" if route.startswith("build") else "flag")
+            steps.append({"state": json.loads(json.dumps(x if st == "X" else y)), "force": force})
+        return {"route": route, "history": steps}
+    k = 0
+    for kind in PAIR_EDIT_KINDS:
+        for pi, placement in enumerate(PAIR_PLACEMENTS):
+            x, y = pair_edit_pair(kind, placement, [None, "snake_case", None, "kebab-case", None, "PascalCase"][pi])
+            for route in HIST_ROUTES:
+                k += 1
+                if thorough:
+                    shapes = PAIR_SHAPES
+                else:
+                    shapes = [PAIR_SHAPES[0]] if route in ("cli-c", "build-tauri") else [PAIR_SHAPES[1 + k % 4]]
+                    if route in ("cli-cwd", "build-typegen") and (k // 4) % 2:
+                        continue                                      # quick: the two main routes always, the twins every other pair
+                for shape in shapes:
+                    hists.append(build(x, y, shape, route))
+                    tally[kind] = tally.get(kind, 0) + 1
+            if thorough or pi in (0, 2):
+                hists.append(build(x, y, PAIR_SHAPES[1], REUSE_ROUTES[pi % 2]))
+                tally[kind] = tally.get(kind, 0) + 1
+    want = 400 if thorough else 40
+    got = 0
+    for _ in range(want * 20):
+        if got >= want:
+            break
+        r = random_pair_edit(rng)
+        if r is None:
+            continue
+        x, y, op = r
+        got += 1
+        hists.append(build(x, y, rng.choice(PAIR_SHAPES), rng.choice(HIST_ROUTES + HIST_ROUTES + REUSE_ROUTES[:1])))
+        tally["random-" + op] = tally.get("random-" + op, 0) + 1
+    return hists, tally
+
+
 def reuse_cases(rng, thorough):
     """2-3 rounds on one generator object; signatures or the parameter case differ between rounds (same file set)"""
     hists = []
@@ -1033,6 +1195,12 @@ def run(rep):
         "histories": len(hs), "runs": sum(len(h["history"]) for h in hs) * 2, "routes": HIST_ROUTES,
         "forced_runs": sum(1 for h in hs for s_ in h["history"] if s_["force"])}
     rep.add("run-histories", evaluate_histories(hs))
+    # histories whose edit moves a parameter / channel from one command to another (or exchanges between two commands)
+    pe, pe_tally = pair_edit_cases(rng, thorough)
+    rep.extra.setdefault("distribution", {})["pair-edit-histories"] = {
+        "histories": len(pe), "runs": sum(len(h["history"]) for h in pe) * 2, "routes": HIST_ROUTES + REUSE_ROUTES,
+        "kinds": pe_tally, "placements": PAIR_PLACEMENTS}
+    rep.add("pair-edit-histories", evaluate_histories(pe))
     # the library API as long-lived objects: one generator (and analyzer) for several rounds
     ru = reuse_cases(rng, thorough)
     rep.extra.setdefault("distribution", {})["reused-objects"] = {"histories": len(ru), "rounds": sum(len(h["history"]) for h in ru) * 2,
